@@ -440,6 +440,28 @@ fn run_c05(seed: u64, tier: Tier) -> i32 {
     for i in idxs.iter().take(2) {
       reps.push((*i, n));
     }
+    // a group of time-outs is not decided by its smallest members alone: the smallest instances of an
+    // exponential family are merely slow and return when run alone, which would drop the whole group. Also
+    // take the largest member whose confirmation bound 3 x T(n) still fits (<= 600 s) and the one in the middle
+    if std::env::var("VERIF_DEBUG_GROUPS").is_ok() && raw[idxs[0]].1.class == "hang" {
+      for i in idxs.iter() {
+        eprintln!("  hang member size={} origin={} class={}", c05t::world_size(&raw[*i].1), raw[*i].1.world["origin"], raw[*i].1.class);
+      }
+    }
+    if idxs.len() > 2 && raw[idxs[0]].1.class == "hang" {
+      let fits = |i: &usize| {
+        let sz = c05t::world_size(&raw[*i].1) as f64;
+        3.0 * (5.0 + 1e-6 * sz * sz * sz) <= 600.0
+      };
+      let rest: Vec<usize> = idxs.iter().skip(2).cloned().filter(|i| fits(i)).collect();
+      if let Some(last) = rest.last() {
+        reps.push((*last, n));
+        let mid = rest[rest.len() / 2];
+        if mid != *last {
+          reps.push((mid, n));
+        }
+      }
+    }
   }
   *agg.probes.entry("violation_groups".into()).or_default() += groups.len() as u64;
   *agg.probes.entry("violations_raw".into()).or_default() += raw.len() as u64;
@@ -478,7 +500,16 @@ fn run_c05(seed: u64, tier: Tier) -> i32 {
           } else {
             let r = exec_isolated("c05", &m.world, t.ceil() as u64);
             if r.how != "timeout" {
-              m.class = "slow-but-returns".into();
+              // the minimiser accepts "no return within 5 s", which is weaker than the bound: it may have shrunk an
+              // exponential instance to one that is merely slow. Judge the world as it was found
+              let n0 = c05t::world_size(v) as f64;
+              let t0 = 3.0 * (5.0 + 1e-6 * n0 * n0 * n0);
+              if m.world != v.world && t0 <= 600.0 && exec_isolated("c05", &v.world, t0.ceil() as u64).how == "timeout" {
+                m = v.clone();
+                m.detail = format!("{} (alone, still not returned after {:.0} s = 3 x T({}); not minimised: smaller instances return)", m.detail, t0, n0);
+              } else {
+                m.class = "slow-but-returns".into();
+              }
             } else {
               m.detail = format!("{} (alone, still not returned after {:.0} s = 3 x T({}) )", m.detail, t, n);
             }
